@@ -73,13 +73,22 @@ def ensure_lock():
             shutil.copy(src, dst)
 
 
+def die_with_parent():
+    """preexec hook: a child must not outlive a killed orchestrator (PR_SET_PDEATHSIG = SIGKILL)."""
+    try:
+        import ctypes
+        ctypes.CDLL("libc.so.6", use_errno=True).prctl(1, 9, 0, 0, 0)
+    except Exception:
+        pass
+
+
 def run_cmd(cmd, env=None, cwd=None, timeout=3600, stdin=None):
     e = dict(BASE_ENV)
     if env:
         e.update(env)
     t0 = time.time()
     try:
-        p = subprocess.run(cmd, env=e, cwd=cwd, timeout=timeout, input=stdin,
+        p = subprocess.run(cmd, env=e, cwd=cwd, timeout=timeout, input=stdin, preexec_fn=die_with_parent,
                            stdout=subprocess.PIPE, stderr=subprocess.PIPE)
         return p.returncode, p.stdout, p.stderr, time.time() - t0
     except subprocess.TimeoutExpired as ex:
